@@ -419,6 +419,98 @@ func freshRelID(r *Run, onlyKind string, min int) {
 				shortName(rl.Fn), kind, rl.List, fp, dep))
 	}
 	r.Min("relationship_id_allocations", n, min)
+	// one allocation scheme per list: an id taken from a stored counter is only fresh if EVERY
+	// relationship added to that list advances the same counter; mixed with allocations that scan
+	// the list (and do not touch the counter) the counter falls behind and hands out a taken id
+	type alloc struct {
+		rl     *relLiteral
+		fields map[*types.Var]bool
+	}
+	byList := map[string][]alloc{}
+	dsl := newSlicer(p)
+	dsl.dataOnly = true
+	dsl.stop = func(v ssa.Value) bool {
+		// the list itself is a leaf (what is appended to it later is not an input of the id)
+		if u, ok := v.(*ssa.UnOp); ok && u.Op == token.MUL {
+			if fv, _ := fieldOfAddr(u.X); fv != nil && fieldIs(p, fv, pkgDoc, "Relationships", "Relationships") {
+				return true
+			}
+		}
+		return false
+	}
+	for _, rl := range lits {
+		if !rl.Appended || (rl.Via != nil && rl.IDArg == nil) || (rl.Via == nil && rl.Specialised) {
+			continue
+		}
+		idVal := rl.ID.Val
+		if rl.IDArg != nil {
+			idVal = rl.IDArg
+		}
+		res := dsl.Slice(idVal)
+		a := alloc{rl, map[*types.Var]bool{}}
+		for v := range res.Vals {
+			fa, ok := v.(*ssa.FieldAddr)
+			if !ok {
+				continue
+			}
+			fv, _ := fieldOfAddr(fa)
+			if fv == nil {
+				continue
+			}
+			if b, ok := fv.Type().Underlying().(*types.Basic); !ok || b.Info()&types.IsInteger == 0 {
+				continue
+			}
+			o := fieldOwner(p, fv)
+			if o == nil || o.Obj().Pkg() == nil || !strings.HasPrefix(o.Obj().Pkg().Path(), modPath) {
+				continue
+			}
+			loaded := false
+			if refs := fa.Referrers(); refs != nil {
+				for _, in := range *refs {
+					if u, ok := in.(*ssa.UnOp); ok && u.Op == token.MUL && res.Vals[u] {
+						loaded = true
+					}
+				}
+			}
+			if loaded && fieldStoredSomewhere(p, fv) {
+				a.fields[fv] = true
+			}
+		}
+		list := strings.TrimSuffix(strings.TrimSuffix(rl.List, "(merged)"), "(prepended)")
+		byList[list] = append(byList[list], a)
+	}
+	for list, as := range byList {
+		for _, a := range as {
+			for fv := range a.fields {
+				for _, b := range as {
+					if !b.fields[fv] {
+						r.Check("fresh-dep", fmt.Sprintf("relid-scheme:%s:%s", shortName(a.rl.Fn), fv.Name()), a.rl.ID.Pos(), false,
+							fmt.Sprintf("%s takes the id of a new relationship in %s from the stored counter %s, but %s adds relationships to the same list without that counter (it scans the list): the counter falls behind and a later id repeats one already in the list",
+								shortName(a.rl.Fn), list, fv.Name(), shortName(b.rl.Fn)))
+						break
+					}
+				}
+			}
+		}
+	}
+}
+
+// fieldStoredSomewhere: some module function assigns the field (it is state, not a constant of
+// construction).
+func fieldStoredSomewhere(p *Program, fv *types.Var) bool {
+	if p.storedFields == nil {
+		p.storedFields = map[*types.Var]bool{}
+		for _, fn := range p.ModFuncs() {
+			allInstrs(fn, func(in ssa.Instruction) {
+				if st, ok := in.(*ssa.Store); ok {
+					if f, _ := fieldOfAddr(st.Addr); f != nil {
+						p.storedFields[f] = true
+					}
+				}
+			})
+		}
+	}
+	return p.storedFields[fv]
 }
 
 // ---------------------------------------------------------------------------
